@@ -157,7 +157,8 @@ def part_threads(sh, res):
                 res.violation('interleaving-changes-result', {'kind': 'threads', 'queries': [i0[0], i1[0]], 'instances': [i0, i1], 'schedule': trace, 'victim': tid, 'victim_query': inst[0]}, exp, slot[tid])
         res.outcome(json.dumps(core.jsonable(slot), sort_keys=True)[:200])
     res.states += hi - lo
-    res.sample({'queries': [i0[0], i1[0]], 'points': [n0, n1], 'interleavings': hi - lo})
+    sch = schedules(n0, n1, sh['bound'])[lo:hi]
+    res.sample({'queries': [i0[0], i1[0]], 'points': [n0, n1], 'interleavings': hi - lo, 'preemption_bound': sh['bound'], 'one_schedule_thread_ids': sch[len(sch) // 2] if sch else []})
 
 
 # ---------------------------------------------------------------- histories
